@@ -46,9 +46,10 @@ theorem srun_np (ops : List (Op × (Nat → Bool))) (sp : St × Parked) (h : NP 
   | nil => exact h
   | cons o ops ih => exact ih _ (step_np sp.1 sp.2 o.2 o.1 h)
 
-/-- A freshly added torrent (`InitLike`), not panicked, no write in flight, a configuration whose pieces with
-blocks have data: the invariant holds. -/
-theorem InitLike.np {s : St} (h : InitLike s) (hp : s.panicked = none) (hw : s.writing = none)
-    (hc : s.cfg.blocksHaveData = true) : NP s := ⟨hp, h.full hc hw⟩
+/-- A freshly added torrent (`InitLike`), not panicked, with no write job from the future in flight (none at all
+in every state the driver starts from): the invariant holds. -/
+theorem InitLike.np {s : St} (h : InitLike s) (hp : s.panicked = none) (hw : ∀ w, s.writing = some w → w.gen ≤ s.gen) :
+    NP s := ⟨hp, h.full hw⟩
+
 
 end Rain.Loop
